@@ -1305,6 +1305,27 @@ where
         edge: &EdgeOfFunc<'id, Self>,
         literal_set: &EdgeOfFunc<'id, Self>,
     ) -> AllocResult<EdgeOfFunc<'id, Self>> {
+        /// Remove all literals above level `until` from `set`. In contrast to
+        /// [`crate::set_pop()`], this also skips negative literals.
+        #[inline] // tail-recursive
+        fn literal_set_pop<'a, M: Manager<EdgeTag = EdgeTag>>(
+            manager: &'a M,
+            set: Borrowed<'a, M::Edge>,
+            until: LevelNo,
+        ) -> Borrowed<'a, M::Edge>
+        where
+            M::InnerNode: HasLevel,
+        {
+            match manager.get_node(&set) {
+                Node::Inner(n) if n.level() < until => {
+                    let (t, e) = collect_cofactors(set.tag(), n);
+                    let positive = is_false(manager, &e);
+                    literal_set_pop(manager, if positive { t } else { e }, until)
+                }
+                _ => set,
+            }
+        }
+
         fn inner<M: Manager<EdgeTag = EdgeTag, Terminal = BCDDTerminal>>(
             manager: &M,
             edge: Borrowed<M::Edge>,
@@ -1318,7 +1339,7 @@ where
             };
             let level = node.level();
 
-            let literal_set = crate::set_pop(manager, literal_set, level);
+            let literal_set = literal_set_pop(manager, literal_set, level);
             let (literal_set, c) = match manager.get_node(&literal_set) {
                 Node::Inner(node) if node.level() == level => {
                     let (t, e) = collect_cofactors(literal_set.tag(), node);
